@@ -1,1 +1,28 @@
-fn main() { eprintln!("not built yet"); std::process::exit(2); }
+//! dv-store: drives the real storage components of d-engine from TLC-generated state graphs /
+//! behaviours and compares every observation with the expectation computed by the TLA+ spec.
+//!
+//!   dv-store buflog    --graph G --depth D --random N --rlen L --seed S --threads T --out R   (C19)
+//!   dv-store logstore  ...                                                                   (C20)
+//!   dv-store metastore ...                                                                   (C21)
+//!   dv-store crashlog  ...                                                                   (C18)
+mod buflog;
+mod crashlog;
+mod logstore;
+mod metastore;
+mod util;
+
+fn main() {
+    let args: Vec<String> = std::env::args().collect();
+    let mode = args.get(1).cloned().unwrap_or_default();
+    let rc = match mode.as_str() {
+        "buflog" => buflog::main(&args),
+        "logstore" => logstore::main(&args),
+        "metastore" => metastore::main(&args),
+        "crashlog" => crashlog::main(&args),
+        _ => {
+            eprintln!("usage: dv-store buflog|logstore|metastore|crashlog ...");
+            2
+        }
+    };
+    std::process::exit(rc);
+}
